@@ -70,18 +70,20 @@ inductive Outcome where
   | unsupported
   deriving Repr
 
-/-- `defer func() { if err := recover(); err != nil { recoverFunc(w, err) } }()`; the harness's
-`recoverFunc` records the value and writes status 500. -/
-def withRecover (recover : Bool) (respHeaders : Hdr) (x : Except PanicVal Rec) : Outcome :=
+/-- `defer func() { if err := recover(); err != nil { recoverFunc(w, err) } }()`; `acts` is what the recovery function
+does with `w` (default: the harness's `recoverFunc` records the value and writes status 500), `headWrap` whether `w` is
+the `headResponse` wrapper by then. -/
+def withRecover (recover : Bool) (respHeaders : Hdr) (x : Except PanicVal Rec)
+    (acts : List Act := defaultRecActs) (headWrap : Bool := false) : Outcome :=
   match x with
   | .ok r => .normal r
   | .error v =>
-    if recover then .recovered v (({ hdr := respHeaders } : Rec).writeHeader 500) else .panicked v
+    if recover then .recovered v (recRec acts headWrap respHeaders) else .panicked v
 
 def ServeRes.finish (pc : PanicCfg) (scripts : Scripts) : ServeRes → Option Call × Outcome
   | .unsupported => (none, .unsupported)
   | .fault _ rc => (none, withRecover rc [] (.error .fault))
-  | .call c => (some c, withRecover c.recover c.respHeaders (runCall pc scripts c))
+  | .call c => (some c, withRecover c.recover c.respHeaders (runCall pc scripts c) c.recActs c.headWrap)
 
 /-- `Router.ServeHTTP`, complete. -/
 def Router.serveHTTP (env : Env) (pc : PanicCfg) (scripts : Scripts) (r : Router) (req : Req) (ps : Params) :
